@@ -164,7 +164,8 @@ fn replay_file(path: &str) -> i32 {
                 logins::replay(logins::Oracle::C03, &report, &r);
                 None
             }
-            ("C02", _) => Some(c02::replay(&r)),
+            ("C02", "confusable-credentials") => Some(c02::replay_confusable(&r)?),
+            ("C02", _) if r["choices"].is_array() || r["altered"].is_string() => Some(c02::replay(&r)),
             ("C06", sc) => {
                 if !c06::replay(&report, sc, &r) {
                     return None;
